@@ -290,7 +290,12 @@ def add_rich_structure(doc: Dict[str, Any], rnd: random.Random) -> str:
 def add_alias(doc: Dict[str, Any], rnd: random.Random) -> str:
     name = _fresh(rnd, "SimAlias")
     t = rnd.choice([{"kind": "or", "items": [_b("string"), _b("integer")]}, {"kind": "array", "element": _b("string")},
-                    _r(rnd.choice(doc["structures"])["name"]) if doc["structures"] else _b("string"), _b("string")])
+                    _r(rnd.choice(doc["structures"])["name"]) if doc["structures"] else _b("string"), _b("string"),
+                    # kinds some plugins emit nothing for (all four accept them on the pinned tree)
+                    {"kind": "map", "key": _b("string"), "value": _b("integer")},
+                    {"kind": "map", "key": _b("DocumentUri"), "value": {"kind": "array", "element": _r(rnd.choice(doc["structures"])["name"]) if doc["structures"] else _b("string")}},
+                    {"kind": "tuple", "items": [_b("integer"), _b("string")]},
+                    {"kind": "stringLiteral", "value": rnd.choice(["abc", "create", "x-y"])}])
     doc["typeAliases"].append({"name": name, "type": t})
     return f"add_alias:{name}"
 
